@@ -418,9 +418,15 @@ func (x *Exec) finish(fd *ast.FuncDecl) {
 	}
 	// use-lemma: instantiate proved lemmas at the exit state (their requires are obligations)
 	for _, ul := range ct.UseLemmas {
-		call, ok := ul.E.(*SCall)
+		ulCond := tTrue
+		ulE := ul.E
+		if imp, isImp := ulE.(*SBin); isImp && imp.Op == "==>" {
+			ulCond = env.evalBool(imp.X)
+			ulE = imp.Y
+		}
+		call, ok := ulE.(*SCall)
 		if !ok {
-			panic(specFailure{"use-lemma expects name(args)"})
+			panic(specFailure{"use-lemma expects [cond ==>] name(args)"})
 		}
 		lm := c.eng.specs.lemmas[call.Fn]
 		if lm == nil {
@@ -445,11 +451,11 @@ func (x *Exec) finish(fd *ast.FuncDecl) {
 		for k, rq := range lm.Requires {
 			g := lenv.evalBool(rq.E)
 			for pi, part := range splitConj(g) {
-				c.obligeAssume("lemma-pre:"+call.Fn, fmt.Sprintf("#%d.%d", k+1, pi+1), final.pc, part, fd.Body.Rbrace, "hypothesis of lemma "+call.Fn+": "+rq.Text)
+				c.obligeAssume("lemma-pre:"+call.Fn, fmt.Sprintf("#%d.%d", k+1, pi+1), tAnd(final.pc, ulCond), part, fd.Body.Rbrace, "hypothesis of lemma "+call.Fn+": "+rq.Text)
 			}
 		}
 		for _, en := range lm.Ensures {
-			c.assume(final.pc, lenv.evalBool(en.E))
+			c.assume(tAnd(final.pc, ulCond), lenv.evalBool(en.E))
 		}
 		c.inlined["lemma:"+call.Fn] = true
 	}
